@@ -83,6 +83,29 @@ def import_workspace(rng):
     serde rename half of the time) and an `app` crate of 2-3 files whose use statements (explicit, grouped, glob) and fields refer to them."""
     libs = ['alpha', 'beta', 'gamma'][:rng.randint(2, 3)]
     files, defs = {}, {}
+    if rng.random() < 0.3:
+        # directed, otherwise clean shape: ONE name generated by two crates under the same generated name, imported explicitly from each of
+        # them in two different files of the importing crate and used in both. Nothing is ambiguous for the unchanged code (each import
+        # line names its own module), so every run must give the same bytes.
+        a, b = rng.sample(libs, 2)
+        n = rng.choice(POOL)
+        ren = rng.choice([None, None, 'Shared' + n])
+        for c in libs:
+            names = {n} if c in (a, b) else set()
+            names |= {m for m in POOL if m != n and rng.random() < 0.4}
+            defs[c] = {}
+            src = ''
+            for m in sorted(names):
+                gen = (ren or m) if m == n else m
+                defs[c][m] = gen
+                attr = f'#[serde(rename = "{gen}")]\n' if gen != m else ''
+                src += f'#[typeshare]\n{attr}pub struct {m} {{ pub {c}_{m.lower()}: u32 }}\n\n'
+            files[f'{c}/src/lib.rs'] = src
+        imports = set()
+        for k, c in enumerate((a, b)):
+            files[f'app/src/twin{k}.rs'] = f'use {c}::{n};\n\n#[typeshare]\npub struct Twin{k} {{\n    pub f: {n},\n    pub g: Vec<{n}>,\n}}\n'
+            imports.add((c, n))
+        return {'files': files, 'ambiguity': imports_ambiguity(imports, defs)}
     for c in libs:
         names = [n for n in POOL if rng.random() < 0.6] or [rng.choice(POOL)]
         defs[c] = {}
